@@ -362,6 +362,25 @@ theorem handleIndex_fail (vols : List VolOut) (h : ∃ v ∈ vols, v.ok = false)
     · refine ⟨[], v, by simp, by simpa using hv, by simp, ?_⟩
       simp [handleIndex, hv]
 
+/-- A read error is always reported, whatever had arrived before it. -/
+theorem ksLoopAbort_error : ∀ toks saw acc, ∃ e, ksLoopAbort toks saw acc = .error e := by
+  intro toks
+  induction toks with
+  | nil => intro saw acc; exact ⟨_, rfl⟩
+  | cons t rest ih =>
+    intro saw acc
+    cases t with
+    | tooLong => exact ⟨_, rfl⟩
+    | line l =>
+      simp only [ksLoopAbort]
+      split
+      · exact ⟨_, rfl⟩
+      · split
+        · exact ih _ _
+        · split
+          · exact ih _ _
+          · exact ⟨_, rfl⟩
+
 /-! ### Producer with well-formed volumes -/
 
 /-- One volume's `IndexTo`: complete lines, then (only when it fails) possibly part of a line. -/
